@@ -123,5 +123,5 @@ func runRead(c ReadCase) *h.Result {
 var readP = h.Prop[ReadCase]{Name: "reader", Gen: genRead, Run: runRead}
 
 func testReader(t *testing.T) {
-	h.RunProp(t, readP, h.N(60000, 400000))
+	h.RunProp(t, readP, h.N(100000, 400000))
 }
